@@ -45,7 +45,19 @@ def gen_batch(rng, ncand=40):
     decls.append(("struct", "N0", ctx.structs["N0"]["fields"]))
     decls.append(("struct", "A0", ctx.structs["A0"]["fields"]))
     structs = ["S0", "S1", "B0", "B1"]
-    cands = []
+    # fixed shapes: a small struct next to scalars of exactly its size, in either order and in both
+    # directions (the order of equal-sized bundle members is the declaration order in every backend)
+    for nm, fl in (("P2", [("uint8", 1, "a"), ("uint8", 1, "b")]), ("P4", [("uint16", 1, "a"), ("uint16", 1, "b")]), ("P8", [("uint32", 1, "a"), ("uint32", 1, "b")])):
+        ctx.structs[nm] = {"size": sum(gen.PSIZE[t] for t, _, _ in fl), "align": gen.PSIZE[fl[0][0]], "objs": 0, "fields": fl, "file": 0}
+        decls.append(("struct", nm, fl))
+    cands = [
+        [("in", "P4", None, "p0"), ("in", "uint32", None, "p1")],
+        [("in", "uint32", None, "p0"), ("in", "P4", None, "p1")],
+        [("out", "P4", None, "p0"), ("out", "uint32", None, "p1"), ("in", "uint8", None, "p2")],
+        [("in", "P8", None, "p0"), ("in", "uint64", None, "p1"), ("in", "float64", None, "p2"), ("out", "float64", None, "p3"), ("out", "P8", None, "p4"), ("out", "int64", None, "p5")],
+        [("in", "P2", None, "p0"), ("in", "uint16", None, "p1"), ("in", "uint8", None, "p2"), ("in", "P2", None, "p3"), ("in", "int16", None, "p4")],
+        [("in", "float32", None, "p0"), ("in", "P4", None, "p1"), ("in", "int32", None, "p2"), ("in", "P8", None, "p3"), ("in", "uint64", None, "p4"), ("out", "P2", None, "p5"), ("out", "uint16", None, "p6")],
+    ] if ncand >= 12 else []
     while len(cands) < ncand:
         ps = []
         arr = {"in": False, "out": False}
